@@ -217,7 +217,7 @@ fn replay_earlystop(case: &Value, rep: &mut Report) {
     let (e, tol, hasval) = (usize_of(p, "e"), usize_of(p, "tol"), bool_of(p, "hasval"));
     let script: Vec<f32> = vec1(&case["val"]);
     let ran = usize_of(case, "ran");
-    let id = format!("training:earlystop:e{}tol{}val{}:{:?}", e, tol, hasval, script);
+    let id = format!("training:earlystop:e{}tol{}val{}print{}:{:?}", e, tol, hasval, p["print"], script);
     let (arch, mut net) = one_param_net(0.01);
     let mut f = || 0.5f32;
     nets::randomize(&mut net, &arch, &mut f);
@@ -231,7 +231,11 @@ fn replay_earlystop(case: &Value, rep: &mut Report) {
         let xr = refs(&x);
         let yr = refs(&y);
         let val = if hasval { Some((&xr, &yr, tol as i32)) } else { None };
-        net.learn(&xr, &yr, val, 1, e as i32, None)
+        let print = match p["print"].as_i64().unwrap_or(0) {
+            0 => None,
+            k => Some(k as i32),
+        };
+        net.learn(&xr, &yr, val, 1, e as i32, print)
     });
     verif::set_val_loss_script(None);
     match out {
